@@ -95,10 +95,28 @@ def body_frozen(pid, backing, n, *args):
         return True                  # buffer-local shuffle has no frozen form (copy(freeze=True) stays random by design)
     else:
         fz = ds.copy(freeze=True)
-    a, b, c2 = list(fz), list(fz), list(fz)
+    a = list(fz)
+    if pid != 'oneshot':
+        _ = list(ds)                        # the original moves on to its next epoch ...
+        fz2 = ds.copy(freeze=True)          # ... and is frozen once more
+        _ = list(fz2)
+    b = list(fz)
+    it = iter(fz)
+    first = [next(it)] if len(a) else []
+    if pid != 'oneshot':
+        _ = list(ds)                        # also while an iteration of the frozen copy is in flight
+    c2 = first + list(it)
     rt.reached()
     if not (a == b == c2):
         return False
+    if hasattr(fz, 'keys'):
+        try:
+            ks = list(fz.keys())
+        except Exception:   # noqa
+            ks = None
+        if ks is not None and backing == 'dict' and pid == 'reshuffle':
+            if [v for v in a] != [rt.KEYS.index(k) for k in ks]:
+                return False
     base = sorted(leafs(a))
     want = sorted(leafs(list(_build(pid, n, backing, rt.Rng(sel=[0] * 9, choices=[0] * 6)))))
     return base == want
@@ -239,7 +257,9 @@ FAMILIES = [
            lambda tier, seed: [(p, v, b, n, (2 if tier == 'quick' else 3)) for p in PIPELINES for v in ('plain', 'copy', 'pf1', 'pfw') for b in ('list',) for n in (0, 2, 3)
                                if not (p in ('cat', 'local', 'map_local_batch') and n == 3 and tier == 'quick')],
            timeout=dict(quick=90, thorough=900), desc='equally seeded twins agree epoch by epoch, also through copy() and prefetch, independent of the global generator'),
-    Family('frozen', body_frozen, ['pid', 'backing', 'n'], RA + CA, lambda tier, seed: [(p, 'list', n) for p in PIPELINES for n in (0, 2, 3)], timeout=dict(quick=90, thorough=600),
+    Family('frozen', body_frozen, ['pid', 'backing', 'n'], RA + CA,
+           lambda tier, seed: [(p, b, n) for p in PIPELINES for b in ('list', 'dict') for n in (0, 2, 3) if not (n == 3 and tier == 'quick' and p != 'reshuffle')
+                               and not (b == 'dict' and p not in ('reshuffle', 'oneshot'))], timeout=dict(quick=90, thorough=600),
            desc='one-time shuffle and copy(freeze=True) iterate in one fixed order; reshuffling datasets report unordered'),
     Family('copy', body_copy, ['kind', 'flag'], [('p0', 'int'), ('p1', 'int')], lambda tier, seed: [(k, f) for k in STAGES for f in (False, True)], timeout=60,
            desc='copy() preserves every configuration parameter of every stage (symbolic numeric parameters)'),
